@@ -781,6 +781,11 @@ def eval_desc(desc, env):
         a, b = eval_desc(sc[1][0], env), eval_desc(sc[1][1], env)
         return {"Eq": a == b, "Ne": a != b, "Lt": a < b, "Le": a <= b, "Gt": a > b, "Ge": a >= b,
                 "BitAnd": bool(a) and bool(b), "BitOr": bool(a) or bool(b), "BitXor": bool(a) != bool(b)}[sc[0]]
+    if sc and sc[0].split("::")[-1] in ("eq", "ne") and len(sc[1]) == 2:         # PartialEq on scalars / references to scalars
+        a, b = eval_desc(sc[1][0], env), eval_desc(sc[1][1], env)
+        return (a == b) if sc[0].split("::")[-1] == "eq" else (a != b)
+    if sc and sc[0].split("::")[-1] in ("deref", "clone", "to_owned") and len(sc[1]) == 1:
+        return eval_desc(sc[1][0], env)
     if sc and sc[0].split("::")[-1] in ("min", "max") and len(sc[1]) == 2:
         a, b = int(eval_desc(sc[1][0], env)), int(eval_desc(sc[1][1], env))
         return min(a, b) if sc[0].endswith("min") else max(a, b)
